@@ -28,6 +28,7 @@ from __future__ import annotations
 
 import ast
 import contextlib
+import copy
 import dataclasses
 import datetime
 import operator
@@ -433,7 +434,6 @@ def load(val: _T) -> PythonValueT | _T:
     return strload(val) if inspection.istexttype(val.__class__) else val  # type: ignore[arg-type]
 
 
-@compat.lru_cache(maxsize=100_000)
 def strload(val: str | bytes | bytearray | memoryview) -> PythonValueT:
     """Attempt to decode a string-like input into a Python value.
 
@@ -456,6 +456,16 @@ def strload(val: str | bytes | bytearray | memoryview) -> PythonValueT:
     Args:
         val: The string-like input to be decoded.
     """
+    loaded = _strload(val)
+    # The decoded value is memoized. Containers are mutable, so never hand the
+    #   cached object itself to a caller - they own what they get.
+    if loaded.__class__ in _IMMUTABLE_PRIMITIVES:
+        return loaded
+    return copy.deepcopy(loaded)
+
+
+@compat.lru_cache(maxsize=100_000)
+def _strload(val: str | bytes | bytearray | memoryview) -> PythonValueT:
     with contextlib.suppress(ValueError):
         return compat.json.loads(val)
 
@@ -480,5 +490,6 @@ MarshalledValueT: t.TypeAlias = "PythonPrimitiveT | dict[PythonPrimitiveT, Marsh
 """Type alias for a Python value which is ready for over-the-wire serialization."""
 
 
+_IMMUTABLE_PRIMITIVES = frozenset((str, int, float, bool, type(None)))
 _itemscaller = operator.methodcaller("items")
 _valuescaller = operator.methodcaller("values")
